@@ -841,6 +841,9 @@ pub fn def(tier: Tier) -> PropertyDef {
 			})
 			.prop_map(|(cfg, s)| VCase { cfg, s });
 		checks.push(pt(&format!("values_{name}"), tier.pick(3000, 10000), strat, run));
+		// long one-sided trends with a zig-zag: run, peak and "bars since" counters far from their start
+		let strat = (cfggen::config_strategy(name, GenOpts { wide: false, price_sources: true, nonneg_ma: false }), gen::trend_candle_stream(tier.pick(1500, 5000))).prop_map(|(cfg, s)| VCase { cfg, s });
+		checks.push(pt(&format!("trend_values_{name}"), tier.pick(40, 200), strat, run));
 	}
 	PropertyDef {
 		id: "C05",
